@@ -201,3 +201,55 @@ Definition check_aad (h : hentry * bytes) : bool :=
 Definition check_nonce (c : bytes * Z * bytes * Z * bytes) : bool :=
   let '(base, i, n, cs, aad) := c in
   bytes_eqb (derive_gcm_nonce (unhex base) (zN i)) (unhex n) && bytes_eqb (chunk_aad (zN cs) (zN i)) (unhex aad).
+
+(* ---------------------------------------------------------------- copy / rename through a handle with a cache *)
+(* (strict, honest, chunk size, source path, document in the handle's cache, document on the backend);
+   each document comes with the payload object it points at (PNone = that object is gone) *)
+Definition ccase := (bool * list hentry * Z * bytes * tdoc * tdoc)%type.
+
+Definition nopt (o o' : option N) : bool :=
+  match o, o' with Some x, Some y => x =? y | None, None => true | _, _ => false end.
+Definition meta_eqb (a b : meta) : bool :=
+  (m_size a =? m_size b) && obytes_eqb (m_etag a) (m_etag b) && obytes_eqb (m_otag a) (m_otag b) &&
+  obytes_eqb (m_over a) (m_over b) && bytes_eqb (m_nonce a) (m_nonce b) && lbytes_eqb (m_tags a) (m_tags b) &&
+  nopt (m_cs a) (m_cs b) && nopt (m_av a) (m_av b) && obytes_eqb (m_an a) (m_an b) && obytes_eqb (m_at a) (m_at b) &&
+  obytes_eqb (m_gen a) (m_gen b) && nopt (m_ms a) (m_ms b).
+
+Definition to_docstate (hs : list hentry) (td : tdoc) : docstate * option bytes :=
+  match td with
+  | TAbsent => (DAbsent, None)
+  | TUndecodable => (DUndecodable, None)
+  | TDoc i ed p => match resolve_doc hs i ed with
+                   | Some m => (DDoc m, resolve_payload hs p)
+                   | None => (DUndecodable, None)
+                   end
+  end.
+
+(* what a fresh handle reads at the target after the copy: the bytes the resealed source document
+   decrypts to (same nonce, tags and ciphertext), or an error if the copy was refused *)
+Definition run_copy (c : ccase) : outcome :=
+  let '(strict, hs, cs, loc, cached, backend) := c in
+  let opn := open_log (log_of hs) in
+  let '(dc, pc) := to_docstate hs cached in
+  let '(db, pb) := to_docstate hs backend in
+  let payload_of (m : meta) : option bytes :=
+      match dc with
+      | DDoc mc => if meta_eqb m mc then pc else pb
+      | _ => pb
+      end in
+  match copy_source opn strict loc dc db (fun m => is_some (payload_of m)) with
+  | None => XErr
+  | Some m =>
+    match get_opts opn strict (zN cs) loc m (inmem_fetch (payload_of m)) None false with
+    | GOk d s e l => XBytes [d] s e l
+    | GErr => XErr
+    end
+  end.
+
+Definition check_copy (co : ccase * obs) : bool :=
+  let '(c, o) := co in
+  match run_copy c, o with
+  | XErr, OErr => true
+  | XBytes d _ _ _, OBytes d' _ _ _ => lbytes_eqb d d'
+  | _, _ => false
+  end.
